@@ -56,6 +56,18 @@ def names_on(f):
     return sorted(f._flagsOn())
 
 
+def all_sets(cls, names):
+    """-> (subs, flags): subs[m] = the names on in flag set number m (= subset(names, m)), flags[m] = that flag set of
+    cls, for ALL m < 2^len(names).  Built by doubling: the sets with field i are the sets without it, each `|` the field
+    (the real Flag.__or__ on the class's own field objects), so every flag set is made with one `|`."""
+    subs, flags = [[]], [cls(0)]
+    for nm in names:
+        field = getattr(cls, nm)
+        subs = subs + [on + [nm] for on in subs]
+        flags = flags + [f | field for f in flags]
+    return subs, flags
+
+
 def stored(npa, attrs):
     """transport contract of the dataset + attributes: the same rows of bytes, the same list of names"""
     return npa, {"flag_order": list(attrs["flag_order"])}
@@ -117,17 +129,21 @@ def every_flag_set_survives_to_bytes_and_from_bytes(n: int):
     n = choose(n, 1, 10)
     names = NAMES[:n]
     W = mk(names)
+    subs, flags = all_sets(W, names)
+    assert len(flags) == 2 ** n and subs[2 ** n - 1] == names and subs[1] == names[:1] and sorted(subs[2 ** (n - 1)]) == names[n - 1:]
+    for m in (0, 1, 2 ** n - 1, (2 ** n) // 3):
+        assert subs[m] == subset(names, m) and flags[m] == flag_of(W, subs[m]), "the table of all sets is what it says"
     bad = []
     for mask in range(2 ** n):
-        on = subset(names, mask)
-        f = flag_of(W, on)
+        f = flags[mask]
+        if names_on(f) != sorted(subs[mask]):
+            bad.append((mask, "made"))
         for order in ("little", "big"):
             b = f.to_bytes(order)
             g = W.from_bytes(b, order)
-            if not (len(b) == W.width() and g == f and names_on(g) == sorted(on) and names_on(f) == sorted(on)):
+            if not (len(b) == W.width() and g == f and names_on(g) == sorted(subs[mask])):
                 bad.append((mask, order))
-        b = f.to_bytes()
-        if not (W.from_bytes(b) == f and int(W.from_bytes(b)) == int(f)):
+        if int(W.from_bytes(f.to_bytes())) != int(f):
             bad.append((mask, "default"))
     assert bad == [], "same flag set, same names, width() bytes"
 
@@ -138,16 +154,17 @@ def round_trip(writer, wnames, reader, n, lo=0, hi=None):
     -> list of the flag-set numbers whose names came back different (must be empty)"""
     bad = []
     hi = 2 ** n if hi is None else hi
+    subs, flags = all_sets(writer, wnames[:n])
     for start in range(lo, hi, CHUNK):
         masks = list(range(start, min(start + CHUNK, hi)))
-        data = [flag_of(writer, subset(wnames[:n], m)) for m in masks]
+        data = flags[start:min(start + CHUNK, hi)]
         npa, attrs = FlagSerializer._packImpl(data, writer)
         assert tuple(npa.shape) == (len(masks), writer.width()), "one row of width() bytes per object"
         npa, attrs = stored(npa, attrs)
         back = FlagSerializer._unpackImpl(npa, FlagSerializer.version, attrs, reader)
         assert len(back) == len(masks), "one flag set per object"
         for q in range(len(masks)):
-            if not (isinstance(back[q], reader) and names_on(back[q]) == sorted(subset(wnames[:n], masks[q]))):
+            if not (isinstance(back[q], reader) and names_on(back[q]) == sorted(subs[masks[q]])):
                 bad.append(masks[q])
     return bad
 
@@ -251,10 +268,17 @@ def reordered_and_extended_reader_gets_the_same_names_9_fields(c: int):
     big_case(9, COMBOS[c][0], COMBOS[c][1], COMBOS[c][2])
 
 
-@lemma(gen={"c": (0, 3)})
+@lemma(gen={"c": (0, 1)})
 def reordered_and_extended_reader_gets_the_same_names_10_fields(c: int):
-    """n = 10 fields, ALL 1024 flag sets, the same four reader orders"""
-    c = choose(c, 0, 3)
+    """n = 10 fields, ALL 1024 flag sets, the first two of the four reader orders"""
+    c = choose(c, 0, 1)
+    big_case(10, COMBOS[c][0], COMBOS[c][1], COMBOS[c][2])
+
+
+@lemma(gen={"c": (2, 3)})
+def reordered_and_extended_reader_gets_the_same_names_10_fields_other_orders(c: int):
+    """n = 10 fields, ALL 1024 flag sets, the other two reader orders"""
+    c = choose(c, 2, 3)
     big_case(10, COMBOS[c][0], COMBOS[c][1], COMBOS[c][2])
 
 
@@ -267,14 +291,15 @@ def flags_added_after_writing_do_not_change_what_is_read(n: int, many: int):
     k = [1, 3][choose(many, 0, 1)]
     names = NAMES[:n]
     W = mk(names)
+    subs, flags = all_sets(W, names)
     bad = []
     for start in range(0, 2 ** n, CHUNK):
         masks = list(range(start, min(start + CHUNK, 2 ** n)))
-        npa, attrs = stored(*FlagSerializer._packImpl([flag_of(W, subset(names, m)) for m in masks], W))
+        npa, attrs = stored(*FlagSerializer._packImpl(flags[start:start + CHUNK], W))
         R = mk(names)  # the application at read time: the same definitions ...
         R.extend({nm: auto() for nm in NEW[:k]})  # ... plus a plugin's flags
         back = FlagSerializer._unpackImpl(npa, FlagSerializer.version, attrs, R)
-        bad = bad + [m for q, m in enumerate(masks) if names_on(back[q]) != sorted(subset(names, m))]
+        bad = bad + [m for q, m in enumerate(masks) if names_on(back[q]) != sorted(subs[m])]
     assert bad == [], "same names on; new flags are off"
 
 
@@ -329,19 +354,26 @@ def shift_map(n, kind, s):
     return {b: 2 * b + s for b in range(n)}
 
 
-@lemma(gen={"n": (1, 10), "kind": (0, 2), "si": (0, 2)})
-def remapped_bits_are_exactly_the_images_of_the_bits_that_were_on(n: int, kind: int, si: int):
-    """FlagSerializer._remapBits(inp, mapping) for EVERY inp < 2^n (n = 1..10) and the injective mappings shift by
-    s in {0, 3, 9} / reversal + shift / spreading (b -> 2b + s): the result has bit mapping[b] on iff bit b of inp was
-    on, and no other bit (oracle: the harness's own sum over the positions that are on)"""
+REMAPS = [(0, 0), (0, 3), (1, 0), (1, 9), (2, 1)]  # (kind, s)
+
+
+@lemma(gen={"n": (1, 10), "c": (0, 4)})
+def remapped_bits_are_exactly_the_images_of_the_bits_that_were_on(n: int, c: int):
+    """FlagSerializer._remapBits(inp, mapping) for EVERY inp < 2^n (n = 1..10) and five injective mappings (identity,
+    shift by 3, reversal, reversal + shift by 9, spreading b -> 2b + 1): the result has bit mapping[b] on iff bit b of
+    inp was on, and no other bit (oracle: the harness's own sum of 2^mapping[b] over the positions that are on, built
+    by doubling)"""
     n = choose(n, 1, 10)
-    kind = choose(kind, 0, 2)
-    s = [0, 3, 9][choose(si, 0, 2)]
-    mapping = shift_map(n, kind, s)
+    c = choose(c, 0, 4)
+    mapping = shift_map(n, REMAPS[c][0], REMAPS[c][1])
+    assert len(set(mapping.values())) == n, "injective"
+    want = [0]
+    for b in range(n):
+        want = want + [w + 2 ** mapping[b] for w in want]
+    assert want[2 ** n - 1] == sum(2 ** mapping[b] for b in range(n)) and want[1] == 2 ** mapping[0]
     bad = []
     for inp in range(2 ** n):
-        want = sum(2 ** mapping[b] for b in range(n) if (inp // (2 ** b)) % 2 == 1)
-        if FlagSerializer._remapBits(inp, mapping) != want:
+        if FlagSerializer._remapBits(inp, mapping) != want[inp]:
             bad.append(inp)
     assert bad == []
 
@@ -408,13 +440,14 @@ def pack_writes_the_documented_format(n: int):
     n = choose(n, 1, 10)
     names = NAMES[:n]
     W = mk(names)
+    subs, flags = all_sets(W, names)
     bad = []
     for start in range(0, 2 ** n, CHUNK):
         masks = list(range(start, min(start + CHUNK, 2 ** n)))
-        npa, attrs = FlagSerializer._packImpl([flag_of(W, subset(names, m)) for m in masks], W)
+        npa, attrs = FlagSerializer._packImpl(flags[start:start + CHUNK], W)
         order = list(attrs["flag_order"])
         assert order == names
         for q, m in enumerate(masks):
-            if [int(x) for x in npa[q]] != old_file_row(order, subset(names, m), W.width()):
+            if [int(x) for x in npa[q]] != old_file_row(order, subs[m], W.width()):
                 bad.append(m)
     assert bad == []
